@@ -204,6 +204,10 @@ def check(ctx, levels, text, indents, with_comments, origin, history=False):
         except RecursionError:
             ctx.count('skipped:resource_limit')
             continue
+        except Exception as e:
+            ctx.count('printer_raised:%s' % type(e).__name__)      # C01's to report: there is no output to judge
+            levels.end()
+            continue
         ctx.hit('pretty_print')
         hook_problems = levels.end()
         try:
